@@ -132,7 +132,7 @@ func (h *Hub) ServeHTTP(w http.ResponseWriter, r *http.Request) {
 		h.localService.ShipID(), remoteService.SKI(), remoteService.ShipID())
 	shipConnection.Run()
 
-	h.registerConnection(shipConnection)
+	h.registerConnectionPreventingDouble(shipConnection, true)
 }
 
 // return if there is a connection for a SKI
@@ -221,7 +221,7 @@ func (h *Hub) connectFoundService(remoteService *api.ServiceDetails, host, port,
 		h.localService.ShipID(), remoteService.SKI(), remoteService.ShipID())
 	shipConnection.Run()
 
-	h.registerConnection(shipConnection)
+	h.registerConnectionPreventingDouble(shipConnection, false)
 
 	// establishing the connection took some time, the pairing may have been removed
 	// or the hub may have been shut down in the meantime
@@ -492,6 +492,46 @@ func (h *Hub) registerConnection(connection api.ShipConnectionInterface) {
 	defer h.muxCon.Unlock()
 
 	h.connections[connection.RemoteSKI()] = connection
+}
+
+// register a new ship Connection and resolve a double connection
+//
+// keepThisConnection can not see a connection that is established at the same
+// time in the other direction, as it isn't registered yet. So check again when
+// registering: if a different connection for this SKI got registered in the
+// meantime, only keep the connection initiated by the higher SKI
+func (h *Hub) registerConnectionPreventingDouble(connection api.ShipConnectionInterface, incomingRequest bool) {
+	remoteSKI := connection.RemoteSKI()
+
+	h.muxCon.Lock()
+
+	existingC, exists := h.connections[remoteSKI]
+	if !exists || existingC == connection || existingC.DataHandler() == connection.DataHandler() {
+		h.connections[remoteSKI] = connection
+		h.muxCon.Unlock()
+		return
+	}
+
+	keep := false
+	if incomingRequest {
+		keep = remoteSKI > h.localService.SKI()
+	} else {
+		keep = h.localService.SKI() > remoteSKI
+	}
+
+	if keep {
+		h.connections[remoteSKI] = connection
+		h.muxCon.Unlock()
+
+		logging.Log().Debug("closing existing double connection")
+		go existingC.CloseConnection(false, 0, "")
+		return
+	}
+
+	h.muxCon.Unlock()
+
+	logging.Log().Debug("closing new double connection, as the existing connection will be used")
+	go connection.CloseConnection(false, 0, "")
 }
 
 // return the connection for a specific SKI
